@@ -72,7 +72,7 @@ type procState struct {
 }
 
 var writerPoints = map[string]bool{"lock.flock": true, "lock.acquired": true, "read.scanned": true,
-	"append.before": true, "tmp.before": true, "rename.before": true, "lock.releasing": true, "lock.released": true,
+	"append.before": true, "tmp.before": true, "rename.before": true, "rename.after": true, "lock.releasing": true, "lock.released": true,
 	"ensure.create": true}
 var readerPoints = map[string]bool{"path.plans": true, "path.legacy": true, "path.default": true, "read.open": true, "read.probed": true}
 
